@@ -45,6 +45,9 @@ func vfRoutingMicroScripts(property string) []vfMicroScript {
 		return sc
 	}
 	switch property {
+	case "C05":
+		// the proxy-id table as the sender uses it: an acknowledgement translated while the next entry is appended
+		return []vfMicroScript{vfSoloAckRace()}
 	case "C08":
 		// overlapping incarnations on the real handlers; "@baseline" marks the set-up state whose registry the state
 		// reached after the explored steps must equal (same set of live streams, newer incarnations)
@@ -97,6 +100,7 @@ func vfRoutingMicroScripts(property string) []vfMicroScript {
 			{IDs: []int64{11}, Tgt: []int{2}, High: 12},
 		}}, InitHigh: 5, MaxWM: 1, MaxRepeat: 1, InOrder: true, Proxies: 2, PlaceT: []int{0, 1}, PlaceS: []int{0}}
 		return []vfMicroScript{
+			vfSoloAckRace(),
 			// two proxy instances (source and target 1 on n1, target 2 on n2): a watermark-only batch goes to the local
 			// target stream and, over the intra-proxy stream, to the peer instance
 			{Name: "two-proxies-watermark", Scenario: duo, Setup: []string{"openT:1", "openT:2", "openS:1", "emit:1", "emit:1"},
@@ -113,6 +117,17 @@ func vfRoutingMicroScripts(property string) []vfMicroScript {
 				Steps: []string{"emit:1", "openT:1", "emit:1"}},
 		}
 	}
+}
+
+// vfSoloAckRace: one target that has completed everything acknowledges (its watermark is one above the last proxy id it
+// holds) while the next batch - which gets exactly that proxy id - is being forwarded.
+func vfSoloAckRace() vfMicroScript {
+	solo := &vfRouteScenario{Name: "micro-solo", NS: 1, NT: 1, Scripts: [][]vfBatch{{
+		{IDs: []int64{10}, Tgt: []int{1}, High: 11},
+		{IDs: []int64{11}, Tgt: []int{1}, High: 12},
+	}}, InitHigh: 5, MaxWM: 1, MaxRepeat: 1, InOrder: true}
+	return vfMicroScript{Name: "single-target-ack-races-next-batch", Scenario: solo, Setup: []string{"openT:1", "openS:1", "emit:1", "doneall:1"},
+		Steps: []string{"tick:1", "emit:1"}}
 }
 
 // precondition of an environment step (the env goroutine blocks for real until it holds)
@@ -291,7 +306,8 @@ func vfRoutingMicroBody(ms vfMicroScript, property string) func(s *vrt.Sched) (s
 			}
 		}
 		for _, v := range e.viol {
-			if v.Property == property || (property == "C04" && v.Property == "C02" && strings.HasPrefix(v.Signature, "task-delivered-0")) {
+			if v.Property == property || (property == "C04" && v.Property == "C02" && strings.HasPrefix(v.Signature, "task-delivered-0")) ||
+				(property == "C05" && v.Signature == "ack-incomplete-although-the-only-target-confirmed-every-task") {
 				return v.Signature, v.Detail + "\ntrace:\n  " + strings.Join(e.events, "\n  "), outcome
 			}
 		}
@@ -423,6 +439,29 @@ func (e *vfRouteExec) checkSettled(wait func()) {
 			}
 		}
 	}
+	// a single target: the aggregated level is that target's level, so once it has acknowledged everything the source
+	// has been acknowledged at least up to its last task (the acknowledgement trails by one until the next watermark)
+	if len(e.tgt) == 1 {
+		for _, s := range e.src {
+			p := s.pull()
+			if p == nil || !p.alive() || len(s.pulls) != 1 {
+				continue
+			}
+			lastTask := int64(-1)
+			for _, r := range e.returned {
+				if r.Src == s.idx && r.ID > lastTask {
+					lastTask = r.ID
+				}
+			}
+			last := int64(-1)
+			if n := len(p.acks); n > 0 {
+				last = p.acks[n-1]
+			}
+			if lastTask >= 0 && last < lastTask {
+				e.violate("C03", "ack-incomplete-although-the-only-target-confirmed-every-task", fmt.Sprintf("source %d sent tasks up to %d, its only target has completed and acknowledged everything, nothing is in flight, yet the last acknowledgement the source received is %d (acks %v): an acknowledged entry was not translated back", s.idx, lastTask, last, p.acks))
+			}
+		}
+	}
 	for _, s := range e.src {
 		p := s.pull()
 		if p == nil || !p.alive() || !s.lastWasWM {
@@ -516,6 +555,9 @@ func TestVerifC01Micro(t *testing.T) { vfRoutingMicro(t, "C01", "TestVerifC01Mic
 func TestVerifC02Micro(t *testing.T) { vfRoutingMicro(t, "C02", "TestVerifC02Micro") }
 func TestVerifC03Micro(t *testing.T) { vfRoutingMicro(t, "C03", "TestVerifC03Micro") }
 func TestVerifC04Micro(t *testing.T) { vfRoutingMicro(t, "C04", "TestVerifC04Micro") }
+
+// TestVerifC05Micro: the proxy-id table inside a real sender (second part of C05).
+func TestVerifC05Micro(t *testing.T) { vfRoutingMicro(t, "C05", "TestVerifC05Micro") }
 
 // TestVerifC08Routing: overlapping stream incarnations on the real routing handlers (third part of C08).
 func TestVerifC08Routing(t *testing.T) { vfRoutingMicro(t, "C08", "TestVerifC08Routing") }
